@@ -4,6 +4,7 @@ pub mod c01_04;
 pub mod c05;
 pub mod c06;
 pub mod c07;
+pub mod c08;
 pub mod c09;
 pub mod c10;
 pub mod c12;
@@ -24,6 +25,7 @@ pub fn run(cfg: RunCfg, verif_dir: &str) -> i32 {
         "C05" => c05::run(&mut run),
         "C06" => c06::run(&mut run),
         "C07" => c07::run(&mut run),
+        "C08" => c08::run(&mut run),
         "C09" => c09::run(&mut run),
         "C10" => c10::run(&mut run),
         "C12" => c12::run(&mut run),
@@ -46,6 +48,7 @@ pub fn replay(id: &str, suite: &str, path: &str) -> Result<(), String> {
         "C05" => c05::replay(suite, path),
         "C06" => c06::replay(suite, path),
         "C07" => c07::replay(suite, path),
+        "C08" => c08::replay(suite, path),
         "C09" => c09::replay(suite, path),
         "C10" => c10::replay(suite, path),
         "C12" => c12::replay(suite, path),
